@@ -9,7 +9,8 @@ RULE = ("random expression trees over BUFFER, NOT, AND, NAND, OR, NOR, XOR, XNOR
         "gates of QUBO / QUBOMatrix / PUBOMatrix typed leaves where the degree stays <= 2 / labels are integers. Oracle: "
         "the returned model equals, as an exact multilinear polynomial, the Moebius transform of the truth table "
         "computed by a plain-Python evaluator of the same tree; model leaves are snapshotted. Non-trivial = tree of "
-        "depth >= 2 whose function is not constant; distinct = digest of the tree description")
+        "depth >= 2 whose function is not constant; distinct = digest of the tree description"
+        ' Also: typed first operands (QUBO / Matrix) whose result does not fit the type (KeyError or a correct model), labels with equal hashes, labels re-created at run time, bool labels, in-place-edited named operands, results edited by the caller afterwards.')
 TIERS = {"quick": {"shards": 8, "cases": 4000}, "thorough": {"shards": 16, "cases": 40000}}
 FLOOR_BASE = {"quick": 350, "thorough": 10000}    # case counts the floors below were calibrated for; the launcher scales them
 
